@@ -111,8 +111,10 @@ Hops(sp, cc) ==
   LET n == (Len(sp) + 1) \div 2 IN
   [i \in 1..n |-> <<sp[Len(sp) - 2 * (i - 1)],
                     IF i = n THEN cc ELSE sp[Len(sp) - 2 * (i - 1) - 1]>>]
+Touched(W) == {e[2] : e \in W.ectp} \cup {e[1] : e \in W.a1 \cup W.a2}
+              \cup {e[2] : e \in W.a1 \cup W.a2}
 Walks(W, hops) ==
-  {w \in [0..Len(hops) -> AllRes] :
+  {w \in [0..Len(hops) -> Touched(W)] :
      \A i \in 1..Len(hops) : /\ <<w[i - 1], w[i]>> \in Adj(W, hops[i][1])
                              /\ IsA(ClsOf(w[i]), hops[i][2])}
 ReachableFrom(W, X, hops) ==
